@@ -32,6 +32,19 @@ CHECKS = {
         'Trusted: TLC, the token renderer and the line/column -> token index conversion in harness/lang_driver.py; for '
         'corpus files the real Lexer supplies the tokens. Byte-exact re-printing is observed by the harness and fed to the trace.',
         'DESIGN.md section 5, C02'),
+    'C01': (
+        'TLC: reference evaluator (specs/lang/MesonEval over MesonGrammar/MesonValues) total on all token sequences <= N of three '
+        'alphabets with the reference laws as invariants; trace validation of the real Parser+Interpreter (same bounded spaces, '
+        'seeded grammar-generated programs, CLI sample) by TraceEval.tla / TraceGrammar.tla',
+        'Model checking of the reference evaluator (transcribed from Syntax.md and the elementary-type reference, not from the '
+        'Python code): totality, typing and immutability laws over every token sequence up to the bound, fixed facts (floor '
+        'division, escape decoding, short circuit, substring, split, zero fill) as assumptions TLC evaluates. Binding: every token '
+        'sequence of the bounded spaces and thousands of generated programs are run by the real mparser.Parser + Interpreter '
+        '(in-process; a sample through `meson setup`) and TLC re-parses and re-evaluates the same tokens with the reference, '
+        'comparing value-vs-failure and the complete variable store (also at the point of failure) and the tree shape.',
+        'Trusted: TLC, token renderer, value projection (harness/c01_eval.py). Where the reference is silent the spec answers '
+        '"unspecified" and accepts any outcome (listed in the evidence assumptions). subdir()/subproject() not exercised yet.',
+        'DESIGN.md section 5, C01'),
 }
 
 NOT_YET = {}
